@@ -304,6 +304,18 @@ func sliceHas(v ssa.Value, pred func(ssa.Value) bool) bool {
 					return true
 				}
 			}
+			// a strings.Builder / bytes.Buffer: what is written into it
+			if ts := x.Type().String(); ts == "*strings.Builder" || ts == "*bytes.Buffer" {
+				for _, ref := range *x.Referrers() {
+					if call, ok := ref.(*ssa.Call); ok && len(call.Call.Args) > 1 && call.Call.Args[0] == ssa.Value(x) {
+						for _, a := range call.Call.Args[1:] {
+							if walk(a, d+1) {
+								return true
+							}
+						}
+					}
+				}
+			}
 			// array/struct temporaries (variadic argument packing): follow the element stores
 			for _, ref := range *x.Referrers() {
 				switch ra := ref.(type) {
@@ -392,6 +404,41 @@ func checkC13Listing(c *core.Ctx, fn *ssa.Function) {
 			n++
 			ok := false
 			why := "yielded name is not the first result of strings.CutPrefix"
+			pfxIs := func(v ssa.Value) bool {
+				bo, isBo := facts.ResolveFree(resolveUp(v, fn, 3)).(*ssa.BinOp)
+				if !isBo || bo.Op != token.ADD {
+					return false
+				}
+				s, isS := facts.ConstString(bo.Y)
+				return isS && strings.HasSuffix(s, "/") && isRecvStringField(recv)(facts.ResolveFree(bo.X))
+			}
+			// equivalent spelling: strings.HasPrefix(name, p) guarding name[len(p):]
+			if sl, isSl := facts.Resolve(args[0]).(*ssa.Slice); isSl && sl.High == nil && sl.Low != nil {
+				if _, isParam := facts.ResolveFree(sl.X).(*ssa.Parameter); isParam {
+					lowOK, pv := false, ssa.Value(nil)
+					if lc, isCall := facts.Resolve(sl.Low).(*ssa.Call); isCall {
+						if bi, isB := lc.Call.Value.(*ssa.Builtin); isB && bi.Name() == "len" && pfxIs(lc.Call.Args[0]) {
+							lowOK, pv = true, facts.ResolveFree(lc.Call.Args[0])
+						}
+					}
+					guard := false
+					for _, cd := range facts.CondsAtDeep(ci.Block()) {
+						if call, isCall := cd.V.(*ssa.Call); isCall && cd.Pos && facts.CalleeName(&call.Call) == "strings.HasPrefix" && len(call.Call.Args) == 2 {
+							if facts.ResolveFree(call.Call.Args[0]) == facts.ResolveFree(sl.X) && facts.ResolveFree(call.Call.Args[1]) == pv {
+								guard = true
+							}
+						}
+					}
+					switch {
+					case !lowOK:
+						why = "the yielded name is not the backend's name with <wrapper prefix> + \"/\" cut off"
+					case !guard:
+						why = "yield is not dominated by strings.HasPrefix(name, prefix+\"/\")"
+					default:
+						ok = true
+					}
+				}
+			}
 			if ex, isEx := facts.Resolve(args[0]).(*ssa.Extract); isEx && ex.Index == 0 {
 				if call, isCall := ex.Tuple.(*ssa.Call); isCall && facts.CalleeName(&call.Call) == "strings.CutPrefix" {
 					// arg0 = backend-supplied name (callback parameter)
@@ -477,10 +524,8 @@ func checkC13NameMap(c *core.Ctx, nm *ssa.Function) {
 			// a constant result is only acceptable for the empty name
 			emptyGuard := false
 			for _, cd := range facts.CondsAt(r.Block()) {
-				if x, op, y, ok := facts.Cmp(cd); ok && op == token.EQL && facts.ResolveFree(x) == ssa.Value(param) {
-					if s2, isS2 := facts.ConstString(y); isS2 && s2 == "" {
-						emptyGuard = true
-					}
+				if x, isEmpty, ok := facts.EmptyTest(cd); ok && isEmpty && facts.ResolveFree(x) == ssa.Value(param) {
+					emptyGuard = true
 				}
 			}
 			c.Check(s == "" && emptyGuard, "C13.R2", key+"/return-const", r.Pos(), `"" returned only for the empty name`, "nameMap returns a constant for a non-empty name: distinct repositories would be conflated")
@@ -488,7 +533,13 @@ func checkC13NameMap(c *core.Ctx, nm *ssa.Function) {
 		}
 		hasPrefix := sliceHas(v, isRecvStringField(recv))
 		hasParam := sliceHas(v, func(x ssa.Value) bool { return x == ssa.Value(param) })
-		hasSlash := sliceHas(v, func(x ssa.Value) bool { s, ok := facts.ConstString(x); return ok && strings.Contains(s, "/") }) ||
+		hasSlash := sliceHas(v, func(x ssa.Value) bool {
+			if s, ok := facts.ConstString(x); ok && strings.Contains(s, "/") {
+				return true
+			}
+			k, isK := facts.ConstInt(x) // '/' written with WriteByte / WriteRune
+			return isK && k == '/'
+		}) ||
 			sliceHas(v, func(x ssa.Value) bool {
 				call, ok := x.(*ssa.Call)
 				return ok && isLexicalNormaliser(facts.CalleeName(&call.Call))
